@@ -160,9 +160,13 @@ impl Handler {
         let sc = &self.script;
         if !sc["end"]["ok"].as_bool().unwrap_or(true) { return Err(script_status(&sc["end"])); }
         let msg = sc["msgs"].as_array().and_then(|a| a.first()).map(json_bytes).unwrap_or_default();
-        let mut r = Response::new(msg);
         let (m, _) = build_meta(&sc["init_meta"]);
-        *r.metadata_mut() = m;
+        // likewise for the response: metadata on the finished response, on a placeholder that is map()ped, or through from_parts
+        let mut r = match m.len() % 3 {
+            1 => { let mut r0 = Response::new(()); *r0.metadata_mut() = m; r0.map(move |_| msg) }
+            2 => Response::from_parts(m, msg, tonic::Extensions::default()),
+            _ => { let mut r = Response::new(msg); *r.metadata_mut() = m; r }
+        };
         if sc["no_compress"].as_bool().unwrap_or(false) { r.disable_compression(); }
         Ok(r)
     }
@@ -255,7 +259,15 @@ where
     let (meta, rejected) = build_meta(&stim["req"]["meta"]);
     log.ev(json!({"e":"cli_built","rejected":rejected}));
     let tmo = c["timeout_ms"].as_u64();
-    macro_rules! mkreq { ($payload:expr) => {{ let mut r = Request::new($payload); *r.metadata_mut() = meta.clone(); if let Some(t) = tmo { r.set_timeout(std::time::Duration::from_millis(t)); } r }}; }
+    // the request is assembled in one of the ways the API offers, chosen by the number of metadata entries: metadata set on the finished
+    // request, on a placeholder that is then map()ped to the payload, or through from_parts
+    macro_rules! mkreq { ($payload:expr) => {{
+        let mut r = match meta.len() % 3 {
+            1 => { let mut r0 = Request::new(()); *r0.metadata_mut() = meta.clone(); let p = $payload; r0.map(move |_| p) }
+            2 => Request::from_parts(meta.clone(), tonic::Extensions::default(), $payload),
+            _ => { let mut r = Request::new($payload); *r.metadata_mut() = meta.clone(); r }
+        };
+        if let Some(t) = tmo { r.set_timeout(std::time::Duration::from_millis(t)); } r }}; }
     let shape = stim["shape"].as_str().unwrap_or("unary");
     let req_pend: Vec<usize> = stim["req"]["pend"].as_array().map(|a| a.iter().filter_map(|x| x.as_u64()).map(|x| x as usize).collect()).unwrap_or_default();
     let t0 = tokio::time::Instant::now();
